@@ -2,7 +2,7 @@
 from __future__ import annotations
 
 from harness import impl
-from harness.common import rng, short
+from harness.common import quick_scale, rng, short
 from harness.gen import corpus, mutate, pyprog, xonshgen
 
 SIGNIFICANT = {"NAME", "NUMBER", "STRING", "OP", "FSTRING_START", "FSTRING_MIDDLE", "FSTRING_END", "SEARCH_PATH", "ERRORTOKEN", "MACRO_PARAM"}
@@ -101,7 +101,7 @@ def check_one(src: str):
 
 def build_inputs(tier):
     r = rng("C08")
-    N = 1 if tier == "quick" else 40
+    N = quick_scale() if tier == "quick" else 40
     cases = []
     base = list(corpus.PY_STMTS) + list(xonshgen.XONSH_STMTS) + [s + "\n" for s in corpus.FSTRINGS] + [p[0] + "\n" for p in corpus.xonsh_pairs()]
     for s in base:
